@@ -140,6 +140,35 @@ def q4u(k: int) -> str:
     return q.run(_q4u, (k,))
 
 
+# ---------------------------------------------------------------- Q4t a source file exists whatever its modification time is
+def _q4t(m, present):
+    present = True if present else False
+    w = vfs.VFS()
+    w.dirs.add("/vfs/p")
+    if present:
+        w.add("/vfs/p/ref.fa", m, "reference")
+    vfs.install(w)
+    try:
+        T = Target(name="T", inputs=["ref.fa"], outputs=["t.out"], options={}, working_dir="/vfs/p", spec="x")
+        try:
+            Graph.from_targets({"T": T}, CachedFilesystem())
+            ok = True
+        except UnresolvedInputError:
+            ok = False
+        if ok != present:
+            return "source file %s: workflow %s" % ("exists (its modification time is the solver's choice)" if present else "is missing", "accepted" if ok else "rejected as unresolved")
+        return ""
+    finally:
+        vfs.uninstall()
+
+
+def q4t(m: int, present: bool) -> str:
+    """
+    post: _ == ""
+    """
+    return q.run(_q4t, (m, present))
+
+
 # ---------------------------------------------------------------- Q4b no side effect on rejection
 ILL = ["multi", "unres", "cycle2", "self", "cycle3-unreachable", "self+chain", "cycle2+chain"]
 
@@ -347,6 +376,8 @@ QUERIES = [
      "timeout": {"quick": 600, "thorough": 2400},
      "bound": "role of every (target, file) in {none, input, output, both} and existence of every file symbolic; quick: 3 targets x 2 files, definition order 0,1,2 (all) and 2,0,1 (first target producing/self-looping on file 0); thorough: 3 x 3 (third file never both input and output of one target), definition order 0,1,2 and, for first targets that read and write file 0, 2,1,0; "
               "extra shards put an unrelated healthy chain of 3-5 targets into the same workflow (defined before or after): 2 targets x 2 files (quick), 3 x 2 (thorough)"},
+    {"name": "Q4t", "fn": q4t, "shards": [{}], "timeout": 120,
+     "bound": "one target, one source file, present with an unbounded symbolic integer modification time (zero, negative, far future) or missing"},
     {"name": "Q4u", "fn": q4u, "shards": [{}], "timeout": 120,
      "bound": "catalogue of %d small workflows whose file names differ only in Unicode normalisation form, letter case or a trailing blank (a byte-exact file system: they are different files)" % len(UNI)},
     {"name": "Q4b", "fn": q4b, "shards": {"quick": [{"be": "slurm"}], "thorough": [{"be": b} for b in ("slurm", "sge", "lsf", "local")]}, "timeout": {"quick": 900, "thorough": 1200},
